@@ -43,6 +43,7 @@ import (
 	pbstore "github.com/streamingfast/substreams/storage/store/marshaller/pb"
 
 	"verifharness/common"
+	"verifharness/fstore"
 )
 
 var out *common.Out
@@ -291,51 +292,6 @@ func (s contractStore) Walk(ctx context.Context, prefix string, f func(string) e
 
 func newEnv(init uint64) *env { return newEnvMode(init, false) }
 
-// faultyStore: a dstore whose first len(pattern) WriteObject calls fail transiently, the way an object-storage upload
-// does: '0' before anything was read from the payload, 'h' after half of it was read, 'a' after all of it was read
-// (commit/close error), 'g' after half of it was read AND with that half left under the object's name (a store
-// without atomic writes). Later calls go to the real store. saveStore's retry loop (derr.RetryContext, real
-// back-off sleeps of 1 s, 2 s, …) is what turns these into a successful Save.
-type faultyStore struct {
-	dstore.Store
-	mu      *sync.Mutex
-	pattern string
-	calls   *int
-}
-
-func (s faultyStore) SubStore(p string) (dstore.Store, error) {
-	in, err := s.Store.SubStore(p)
-	if err != nil {
-		return nil, err
-	}
-	return faultyStore{in, s.mu, s.pattern, s.calls}, nil
-}
-
-func (s faultyStore) WriteObject(ctx context.Context, name string, r io.Reader) error {
-	s.mu.Lock()
-	i := *s.calls
-	*s.calls++
-	s.mu.Unlock()
-	if i >= len(s.pattern) {
-		return s.Store.WriteObject(ctx, name, r)
-	}
-	if s.pattern[i] == '0' {
-		return fmt.Errorf("injected transient write failure (attempt %d, before reading)", i+1)
-	}
-	all, _ := io.ReadAll(io.LimitReader(r, 1<<30))
-	switch s.pattern[i] {
-	case 'h', 'g':
-		// only half is considered consumed: seek back when the reader allows it (bytes.Reader does)
-		if sk, ok := r.(io.Seeker); ok {
-			sk.Seek(int64(len(all)/2)-int64(len(all)), io.SeekCurrent)
-		}
-		if s.pattern[i] == 'g' {
-			s.Store.WriteObject(ctx, name, bytes.NewReader(all[:len(all)/2]))
-		}
-	}
-	return fmt.Errorf("injected transient write failure (attempt %d, kind %c)", i+1, s.pattern[i])
-}
-
 func newEnvMode(init uint64, contract bool) *env {
 	outMu.Lock()
 	seq++
@@ -417,8 +373,7 @@ func implRT(line string, partial bool, init, end uint64, ps []kvPair, dp []strin
 	defer e.close()
 	if faults != "" {
 		// the Config's object store fails transiently on the first writes (armed after the store has been filled)
-		calls := 0 // the only write through the Config's store is Save's
-		fst := faultyStore{e.base, &sync.Mutex{}, faults, &calls}
+		fst := fstore.New(e.base, faults, "") // the only write through the Config's store is Save's
 		cfg, err := store.NewConfig("mod", init, "hash", pbsubstreams.Module_KindStore_UPDATE_POLICY_SET, "bytes", fst)
 		if err != nil {
 			panic(err)
@@ -545,6 +500,99 @@ func implRT(line string, partial bool, init, end uint64, ps []kvPair, dp []strin
 		}
 	}
 	return fmt.Sprintf("name=%s exists=%v content=%s %s", file.Filename, exists, reorderStore(raw, ps), loaded)
+}
+
+// implRT2: two Saves of the same store with both writes still pending (orchestrator/stage/squash.go writes a merged
+// snapshot asynchronously while the next segment is merged and saved): Save(end1), change the values, Save(end2), then
+// the two Writes in either order; each file must hold the state of ITS Save.
+func implRT2(line string, partial bool, init, end1, end2 uint64, ps1, ps2 []kvPair, dp []string, firstWriteFirst bool) string {
+	e := newEnv(init)
+	defer e.close()
+	logger := zap.NewNop()
+	type st interface {
+		SetBytes(ord uint64, key string, value []byte)
+		Flush() error
+		Load(ctx context.Context, file *store.FileInfo) error
+		Iter(func(string, []byte) error) error
+		SizeBytes() uint64
+	}
+	var a st
+	var pa *store.PartialKV
+	var fa *store.FullKV
+	if partial {
+		pa = e.cfg.NewPartialKV(init, logger)
+		a = pa
+	} else {
+		fa = e.cfg.NewFullKV(logger)
+		a = fa
+	}
+	fill := func(ps []kvPair) bool {
+		for i, p := range ps {
+			a.SetBytes(uint64(i+1), p.k, p.v)
+		}
+		return a.Flush() == nil
+	}
+	save := func(end uint64) (*store.FileInfo, func() error, bool) {
+		if partial {
+			f, w, err := pa.Save(end)
+			if err != nil {
+				return nil, nil, false
+			}
+			return f, func() error { return w.Write(ctx) }, true
+		}
+		f, w, err := fa.Save(end)
+		if err != nil {
+			return nil, nil, false
+		}
+		return f, func() error { return w.Write(ctx) }, true
+	}
+	if !fill(ps1) {
+		return "err:flush"
+	}
+	if partial {
+		pa.DeletedPrefixes = dp
+	}
+	f1, w1, ok1 := save(end1)
+	if !fill(ps2) {
+		return "err:flush"
+	}
+	f2, w2, ok2 := save(end2)
+	if !ok1 || !ok2 {
+		return "err:save"
+	}
+	order := []func() error{w1, w2}
+	if !firstWriteFirst {
+		order = []func() error{w2, w1}
+	}
+	for _, w := range order {
+		if err := w(); err != nil {
+			return "err:write"
+		}
+	}
+	show := func(f *store.FileInfo, want []kvPair, which string) string {
+		var b st
+		var pb *store.PartialKV
+		if partial {
+			pb = e.cfg.NewPartialKV(init, logger)
+			b = pb
+		} else {
+			b = e.cfg.NewFullKV(logger)
+		}
+		if err := b.Load(ctx, f); err != nil {
+			fail("C10/pending-write-holds-another-state", which+" snapshot does not load: "+err.Error(), line)
+			return "err:unmarshal"
+		}
+		got := storeContent(b.Iter)
+		if !sameKV(got, want) {
+			fail("C10/pending-write-holds-another-state", fmt.Sprintf("the %s snapshot (%s) holds %s, the store held %s when it was saved", which, f.Filename, showKVMap(got), encKV(want)), line)
+		}
+		var gotDP []string
+		if partial {
+			gotDP = pb.DeletedPrefixes
+		}
+		return fmt.Sprintf("ok/size=%d/kv=%s/dp=%s", b.SizeBytes(), showKVMap(got), showList(gotDP))
+	}
+	return fmt.Sprintf("first=%s second=%s", show(f1, ps1, "first"), show(f2, ps2, "second"))
 }
 
 func implLoad(partial bool, content []byte) string {
@@ -701,6 +749,14 @@ func runLine(line string) (string, bool) {
 			faults = strings.TrimPrefix(w[6], "f:")
 		}
 		return implRT(line, w[1] == "part", common.Atou(w[2]), common.Atou(w[3]), ps, parseList(w[5]), dup, faults), len(ps) > 0
+	case "RT2":
+		// RT2 full|part init end1 end2 kv1 kv2 dp 12|21   (kv2: the same keys with other values)
+		ps1, d1 := parseKV(w[5])
+		ps2, d2 := parseKV(w[6])
+		if d1 || d2 {
+			return "dup-keys", false
+		}
+		return implRT2(line, w[1] == "part", common.Atou(w[2]), common.Atou(w[3]), common.Atou(w[4]), ps1, ps2, parseList(w[7]), w[8] == "12"), true
 	case "LOAD":
 		a := implLoad(w[1] == "part", common.Unhex(w[2]))
 		return a, strings.HasPrefix(a, "ok") && !strings.Contains(a, "kv=/")
@@ -1076,6 +1132,38 @@ func main() {
 			out.Case(l, results[i].ans, results[i].nt)
 			out.Count("op:RT-with-write-faults")
 		}
+	}
+
+	// ---- two Saves with both writes pending
+	for i := 0; i < 40*scale; i++ {
+		partial := rng.Bool()
+		n := rng.Range(1, 8)
+		small = true
+		ps1, dp := genStore(rng, n, false, false, map[bool]int{false: 0, true: 2}[partial])
+		small = false
+		if !settable(ps1) {
+			continue
+		}
+		// the second state: same keys, other values, never longer in total (a snapshot that does not grow)
+		ps2 := make([]kvPair, len(ps1))
+		for j, p := range ps1 {
+			v := make([]byte, len(p.v))
+			for k := range v {
+				v[k] = p.v[k] ^ byte(1+rng.Intn(200))
+			}
+			if len(v) > 0 && rng.Chance(1, 3) {
+				v = v[:len(v)-1]
+			}
+			ps2[j] = kvPair{p.k, v}
+		}
+		kind := "full"
+		if partial {
+			kind = "part"
+		}
+		init := uint64(rng.Range(0, 50))
+		end1 := init + uint64(rng.Range(1, 50))
+		end2 := end1 + uint64(rng.Range(1, 50))
+		emit(fmt.Sprintf("RT2 %s %d %d %d %s %s %s %s", kind, init, end1, end2, encKV(ps1), encKV(ps2), encList(dp), []string{"12", "21"}[rng.Intn(2)]))
 	}
 
 	// ---- save / load round trips
